@@ -149,6 +149,157 @@ theorem expression_shape_distinct (h : Hash) (f : Ident) (ps : List (Ident × En
 set_option maxRecDepth 10000 in
 example : DistinctDigests ((Toy.params0.take 2).map (paramA Toy.h0)) := by decide
 
+/-! ### 2b. parameter lookups (`objects_for_parameter`, `object_for_parameter`) -/
+
+/-- the objects of a list of bare parameter assertions: the fold of `objects_for_predicate`
+never reaches its `unwrap` and returns them in order -/
+theorem objectsFold_paramA (h : Hash) (L : List Env) (hL : ∀ a ∈ L, ∃ pv, a = paramA h pv) :
+    L.foldr (fun a acc =>
+      match acc with
+      | .ok os =>
+        match asObject a.subject with
+        | some o => .ok (o :: os)
+        | none => .panic "queries.rs:objects_for_predicate:as_object.unwrap"
+      | r => r) (.ok []) = (.ok (L.filterMap (fun a => asObject a.subject)) : Res (List Env)) := by
+  induction L with
+  | nil => rfl
+  | cons a L ih =>
+    obtain ⟨pv, rfl⟩ := hL _ (List.mem_cons_self ..)
+    rw [List.foldr_cons, ih (fun b hb => hL b (List.mem_cons_of_mem _ hb))]
+    rfl
+
+/-- which of the parameter assertions a lookup for `p` selects, and what it reads from them -/
+theorem lookup_paramA (h : Hash) (p : Ident) (ps : List (Ident × Env))
+    (hp : ∀ pv ∈ ps, (paramLeaf h pv.1).digest = (paramLeaf h p).digest → pv.1 = p) :
+    ((ps.map (paramA h)).filter (fun a =>
+        match asPredicate a.subject with
+        | some q => q.digest == (paramLeaf h p).digest
+        | none => false)).filterMap (fun a => asObject a.subject) =
+      (ps.filter (fun pv => pv.1 = p)).map (·.2) := by
+  induction ps with
+  | nil => rfl
+  | cons pv ps ih =>
+    have ih' := ih (fun q hq => hp q (List.mem_cons_of_mem _ hq))
+    obtain ⟨q, v⟩ := pv
+    have hsub : asPredicate (paramA h (q, v)).subject = some (paramLeaf h q) := rfl
+    have hobj : asObject (paramA h (q, v)).subject = some v := rfl
+    by_cases hpv : q = p
+    · subst hpv
+      rw [List.map_cons, List.filter_cons]
+      simp only [hsub, BEq.rfl, if_true]
+      rw [List.filterMap_cons, hobj, ih', List.filter_cons]
+      simp
+    · have hne : ((paramLeaf h q).digest == (paramLeaf h p).digest) = false := by
+        apply Bool.eq_false_iff.2
+        intro hc
+        exact hpv (hp (q, v) (List.mem_cons_self ..) (by simpa using hc))
+      rw [List.map_cons, List.filter_cons]
+      simp only [hsub, hne]
+      rw [List.filter_cons]
+      simpa [hpv] using ih'
+
+/-- **every argument of a parameter is returned**, however often the parameter was given and in
+whichever order: for an expression built from the list `ps` (no two of its parameter assertions
+colliding under `h`, and no other parameter of the list colliding with `p`),
+`objects_for_parameter(p)` succeeds and returns - up to order - exactly the values given for `p`. -/
+theorem objects_for_parameter_all (h : Hash) (f : Ident) (ps : List (Ident × Env)) (x : Expression)
+    (p : Ident) (hx : withParams h (Expression.new h f) ps = .ok x)
+    (hd : DistinctDigests (ps.map (paramA h)))
+    (hp : ∀ pv ∈ ps, (paramLeaf h pv.1).digest = (paramLeaf h p).digest → pv.1 = p) :
+    ∃ os, x.objectsForParameter h p = .ok os ∧
+      os.Perm ((ps.filter (fun pv => pv.1 = p)).map (·.2)) := by
+  have hperm := expression_shape_distinct h f ps x hx hd
+  refine ⟨(assertionsWithPredicate x.envelope (paramLeaf h p)).filterMap (fun a => asObject a.subject),
+    ?_, ?_⟩
+  · unfold Expression.objectsForParameter objectsForPredicate
+    exact objectsFold_paramA h _ (fun a ha => by
+      have := (hperm.mem_iff).1 (List.mem_filter.1 ha).1
+      obtain ⟨pv, _, rfl⟩ := List.mem_map.1 this
+      exact ⟨pv, rfl⟩)
+  · unfold assertionsWithPredicate
+    rw [← lookup_paramA h p ps hp]
+    exact (hperm.filter _).filterMap _
+
+/-- the premises are satisfiable with a parameter given twice, in "wrong" (descending) order of
+its values, and another one in between: both values come back -/
+def Toy.paramsTwice : List (Ident × Env) :=
+  [(.known 2, newLeaf Toy.h0 (.uint 9)), (.named [114, 104, 115], newLeaf Toy.h0 (.uint 3)),
+   (.known 2, newLeaf Toy.h0 (.uint 4))]
+set_option maxRecDepth 10000 in
+example : DistinctDigests (Toy.paramsTwice.map (paramA Toy.h0)) ∧
+    (∀ pv ∈ Toy.paramsTwice, (paramLeaf Toy.h0 pv.1).digest = (paramLeaf Toy.h0 (.known 2)).digest →
+      pv.1 = .known 2) ∧
+    (Toy.paramsTwice.filter (fun pv => pv.1 = Ident.known 2)).map (·.2) =
+      [newLeaf Toy.h0 (.uint 9), newLeaf Toy.h0 (.uint 4)] := by
+  refine ⟨by decide, ?_, rfl⟩
+  intro pv hpv
+  simp only [Toy.paramsTwice, List.mem_cons, List.not_mem_nil, or_false] at hpv
+  rcases hpv with rfl | rfl | rfl
+  · intro _; rfl
+  · intro hc; exact absurd hc (by decide)
+  · intro _; rfl
+
+/-- a parameter given exactly once is found by `object_for_parameter`; one given twice (with
+different values) is reported ambiguous, one not given is reported missing - never a panic -/
+theorem object_for_parameter_cases (h : Hash) (f : Ident) (ps : List (Ident × Env)) (x : Expression)
+    (p : Ident) (hx : withParams h (Expression.new h f) ps = .ok x)
+    (hd : DistinctDigests (ps.map (paramA h)))
+    (hp : ∀ pv ∈ ps, (paramLeaf h pv.1).digest = (paramLeaf h p).digest → pv.1 = p) :
+    (∀ v, (ps.filter (fun pv => pv.1 = p)).map (·.2) = [v] → x.objectForParameter h p = .ok v) ∧
+    ((ps.filter (fun pv => pv.1 = p)) = [] → x.objectForParameter h p = .err "NonexistentPredicate") ∧
+    (2 ≤ (ps.filter (fun pv => pv.1 = p)).length → x.objectForParameter h p = .err "AmbiguousPredicate") := by
+  have hperm := expression_shape_distinct h f ps x hx hd
+  -- the selected assertions, as a permutation of the selected parameter assertions
+  have hsel : (assertionsWithPredicate x.envelope (paramLeaf h p)).Perm
+      (((ps.filter (fun pv => pv.1 = p))).map (paramA h)) := by
+    unfold assertionsWithPredicate
+    refine (hperm.filter _).trans ?_
+    clear hperm hd hx
+    induction ps with
+    | nil => exact List.Perm.refl _
+    | cons pv ps ih =>
+      have ih' := ih (fun q hq => hp q (List.mem_cons_of_mem _ hq))
+      obtain ⟨q, v⟩ := pv
+      have hsub : asPredicate (paramA h (q, v)).subject = some (paramLeaf h q) := rfl
+      by_cases hpv : q = p
+      · subst hpv
+        rw [List.map_cons, List.filter_cons]
+        simp only [hsub, BEq.rfl, if_true]
+        rw [List.filter_cons]
+        simp only [decide_true, if_true, List.map_cons]
+        exact List.Perm.cons _ ih'
+      · have hne : ((paramLeaf h q).digest == (paramLeaf h p).digest) = false := by
+          apply Bool.eq_false_iff.2
+          intro hc
+          exact hpv (hp (q, v) (List.mem_cons_self ..) (by simpa using hc))
+        rw [List.map_cons, List.filter_cons]
+        simp only [hsub, hne]
+        rw [List.filter_cons]
+        simpa [hpv] using ih'
+  refine ⟨?_, ?_, ?_⟩
+  · intro v hv
+    generalize hf : ps.filter (fun pv => pv.1 = p) = sel at hv hsel
+    match sel, hv with
+    | [pv], hv' =>
+      have h1 : assertionsWithPredicate x.envelope (paramLeaf h p) = [paramA h pv] := by
+        simpa using hsel
+      have hv2 : pv.2 = v := by simpa using hv'
+      subst hv2
+      simp [Expression.objectForParameter, objectForPredicate, assertionWithPredicate, h1]
+      rfl
+  · intro hnil
+    rw [hnil] at hsel
+    have h1 : assertionsWithPredicate x.envelope (paramLeaf h p) = [] := by simpa using hsel
+    simp [Expression.objectForParameter, objectForPredicate, assertionWithPredicate, h1]
+  · intro h2
+    have hlen := hsel.length_eq
+    rw [List.length_map] at hlen
+    match hl : assertionsWithPredicate x.envelope (paramLeaf h p), hlen with
+    | a :: b :: rest, _ =>
+      simp [Expression.objectForParameter, objectForPredicate, assertionWithPredicate, hl]
+    | [_], hlen' => simp at hlen'; omega
+    | [], hlen' => simp at hlen'; omega
+
 /-- **through serialization** (C05): the envelope of an expression whose parts are well formed
 and encodable decodes from its bytes to itself, hence parses to the expression -/
 theorem expression_roundtrip_bytes (h : Hash) (f : Ident) (ps : List (Ident × Env)) (x : Expression)
